@@ -31,6 +31,8 @@ def run(chk):
     implicit_reg_rule(chk)
     from lib import ersae
     ersae.run(chk)
+    from lib import bcstsize
+    bcstsize.run(chk)
     return chk.finish(
         level="other",
         explanation=("(a) the generated signature/name/RW tables regenerate byte-identically from db/; (b) for every instruction id of both "
